@@ -490,6 +490,9 @@ def run(tier, seed, replay=None):
     import archive_util as au  # pylint: disable=import-outside-toplevel
 
     au.staging_collision(chk, "C08")     # D23: restore vs. a package named like its staging directory
+    import c06  # pylint: disable=import-outside-toplevel
+
+    c06.background_writer(chk, "C08")    # nothing is written into a version's directory once its row is visible
     hists = corpus()
     n_random = 40 if tier == "quick" else 900
     for i in range(n_random):
